@@ -481,6 +481,10 @@ class Ex(StmtMixin, ExprMixin, CallMixin, CompMixin):
       raise ContractMisfit('%s: parameters changed: code %s vs contract %s' % (
           c.label, names, list(c.params)))
     self.top_contract = c
+    is_generator = any(isinstance(n, (ast.Yield, ast.YieldFrom)) for n in ast.walk(fdef)) and not getattr(c, 'harness_src', None)
+    if is_generator and not isinstance(c.result, S.Seq):
+      raise Unsupported('%s is a generator: its contract needs a sequence result sort' % c.label)
+    self.is_generator = is_generator
     self.dec = Decisions()
     n_before = len(self.obligations)
     self.paths = 0
@@ -494,15 +498,18 @@ class Ex(StmtMixin, ExprMixin, CallMixin, CompMixin):
         for pn, ps in c.params.items():
           self.env[pn] = self.make_param(pn, ps, mod)
         self.init_heap()
+        if is_generator:
+          # a generator function is verified as the builder of the list of the values it yields (ghost `yielded`)
+          self.env['yielded'] = V(c.result, c.result.empty())
         self.entry_env = {k: self.snapshot(v) for k, v in self.env.items()}
         for r in c.requires:
           self.assume(self.spec(r))
         try:
           self.exec_block(fdef.body)
-          self.at_return(c, NONE)
+          self.at_return(c, self.env['yielded'] if is_generator else NONE)
           exits += 1
         except Return_ as r:
-          self.at_return(c, r.value)
+          self.at_return(c, self.env['yielded'] if is_generator else r.value)
           exits += 1
         except Raise_ as r:
           self.at_raise(c, r)
